@@ -145,3 +145,11 @@ _p('C07', ['r_sweep', 'r_edges'],
    'Used::new may root only the documented categories and each worklist step may retain only what the popped entity '
    'refers to (no extra edges), apart from the documented first-memory residue after the fixpoint.',
    not_decided='idempotence as such (follows from closure + complement; not executed)')
+
+_p('C17', ['r_arena'],
+   'Identifier stability by construction: the tombstone set is append-only (no call in the crate removes from a place '
+   'ending in `.dead`); every item-yielding or counting accessor of TombstoneArena consults it; delete marks exactly its '
+   'argument; ArenaSet::remove clears the dedup entry from the live item before the tombstone clobbers the key and '
+   'ArenaSet::insert allocates only on a miss; every Module* collection delegates delete/get to its arena with its own id. '
+   'id-arena itself has no removal API (ids are never recycled).',
+   not_decided='behaviour over concrete operation histories (not executed); iteration order is id-arena\'s (append order, trusted)')
